@@ -18,6 +18,7 @@ structure NodeIn where
   view : NodeView
   inflightIds : List String
   readd : List Proposal   -- added by a flow while Observation ran: after the pre-build hooks, before the views
+  histAlt : Option (List BlockKey)  -- a second view the store held during the call (an update arrived while Observation ran)
 
 structure NodeOut where
   obs : Observation
@@ -54,7 +55,8 @@ def decodeCase (input impl : Json) : R Case := do
       { staged := staged, logProps := ← listF proposal nj "log", condProps := ← listF proposal nj "cond",
         hist := ← listF blockKey nj "hist" }
     nodes := nodes ++ [{ view := v, inflightIds := ← listF asStr nj "inflight",
-                         readd := ← listOf proposal (fieldD nj "readd" .null) }]
+                         readd := ← listOf proposal (fieldD nj "readd" .null),
+                         histAlt := ← optOf (listOf blockKey) (fieldD nj "histAlt" .null) }]
   let prev ← match fieldD x "prev" .null with
     | .null => pure none
     | j => some <$> outcome j
@@ -101,8 +103,13 @@ structure NodeVerdict where
 def judgeNode (c : Case) (ni : NodeIn) (out : NodeOut) : NodeVerdict :=
   let maxLen := Gen.maxObservationLength
   let v0 := match c.prev with | some p => preBuild c.ctx p ni.view | none => ni.view
+  -- "the block history of an observation is ONE view the store held during the call": when an update arrived during the
+  -- call, the view the observation was built from is whichever of the two it matches (none: the first, and Ω fails)
+  let histUsed := match ni.histAlt with
+    | some h => if decide (out.obs.blockHistory = h.take limits.obsBlockHistory) then h else v0.hist
+    | none => v0.hist
   let v : NodeView :=
-    { v0 with logProps := v0.logProps ++ ni.readd.filter (fun p => c.ctx.utg p.upkeepID = .log)
+    { v0 with hist := histUsed, logProps := v0.logProps ++ ni.readd.filter (fun p => c.ctx.utg p.upkeepID = .log)
               condProps := v0.condProps ++ ni.readd.filter (fun p => c.ctx.utg p.upkeepID = .condition) }
   let inflight := inflightOf ni.inflightIds
   let inflightP := inflightPOf ni.inflightIds
@@ -131,6 +138,7 @@ def judgeNode (c : Case) (ni : NodeIn) (out : NodeOut) : NodeVerdict :=
     (if decide (v.staged.length < ni.view.staged.length) then ["prev-agreed-removed"] else []) ++
     (if decide (v0.logProps.length + v0.condProps.length < ni.view.logProps.length + ni.view.condProps.length) then ["prev-surfaced-removed"] else []) ++
     (if !ni.readd.isEmpty then ["proposal-readded-during-observation"] else []) ++
+    (if ni.histAlt.isSome then ["history-update-during-observation"] else []) ++
     (if decide (availLog.length > limits.obsLogProposals) then ["log-proposals-capped"] else []) ++
     (if decide (availCond.length > limits.obsCondProposals) then ["cond-proposals-capped"] else []) ++
     (if decide (availLog.length < v.logProps.length) || decide (availCond.length < v.condProps.length) then ["proposal-inflight-filtered"] else []) ++
@@ -193,6 +201,9 @@ def handle (input impl : Json) : R Reply := do
     infoTag "empty-round-at-window-start" "script:empty-round-at-window-start" ++
     infoTag "same-work-candidates-again" "script:same-work-candidates-again" ++
     infoTag "same-head-reorg" "script:same-head-reorg" ++ infoTag "tail-corrected" "script:history-tail-corrected" ++
+    infoTag "restaged-on-newer-block" "script:restaged-on-newer-check-block" ++
+    infoTag "older-check-ignored" "script:older-check-arrives-late" ++
+    infoTag "at-ttl-boundary" "script:observation-at-ttl-boundary" ++
     (if (info.get? "distinct-ids-in-window").getD 0 > 16384 then ["script:>2^14-work-ids-in-one-window"] else [])
   let nontrivial := c.nodes.any (fun n => decide (n.view.staged.length ≥ 2))
   pure { agree := agree, specModel := sm, specImpl := si, diff := diff, fail := fail,
